@@ -52,3 +52,32 @@ for K in ["Element", "String", "Integer", "Number", "Boolean", "Null", "Array", 
     contract(E + "Element.__items__", inst=K, requires="elem_wf(self)",
              returns="type_is(result, Items)", ghost={"result_fresh": True}, result_cls="Items",
              props=["C01", "C04", "C08", "C13", "C14"])
+
+# bound(E): every declared property is bound under its key to E and has a JSON name
+macro_src = ("(attr_absent(e,'properties') or is_np(e.properties) or (isinstance(e.properties, _PropertyDict) and dict_wf(obj_dict(e.properties)) and "
+             "forall(lambda j: isinstance(val_at(obj_dict(e.properties), j), _Property) and not attr_absent(val_at(obj_dict(e.properties), j),'element') and "
+             "is_obj(val_at(obj_dict(e.properties), j).element) and "
+             "not attr_absent(val_at(obj_dict(e.properties), j),'required') and val_at(obj_dict(e.properties), j).name is key_at(obj_dict(e.properties), j) and "
+             "is_str(val_at(obj_dict(e.properties), j).source) and val_at(obj_dict(e.properties), j).parent is e, len(obj_dict(e.properties)))))")
+from pyvc.contracts import macro
+macro("bound", ["e"], macro_src)
+
+for K in ["Element", "String", "Integer", "Number", "Boolean", "Null", "Array", "Not", "AnyOf", "OneOf", "AllOf"]:
+    contract(E + "Element.__properties__", inst=K, requires="elem_wf(self) and bound(self)",
+             returns="type_is(result, Properties) and result.element is self", ghost={"result_fresh": True}, result_cls="Properties",
+             props=["C01", "C04", "C05", "C08", "C13", "C14"])
+
+CALL_REQ = ("elem_wf(self) and bound(self) and (is_json(value) or is_np(value)) and "
+            "(property_ is None or (isinstance(property_, _Property) and not attr_absent(property_,'name') and not attr_absent(property_,'parent') and "
+            "not attr_absent(property_,'element') and not attr_absent(property_,'required') and not attr_absent(property_,'source') and "
+            "(is_none(property_.name) or is_str(property_.name))))")
+CONS_REQ = ("elem_wf(self) and bound(self) and is_json(value) and isinstance(property_, _Property) and not attr_absent(property_,'name') and "
+            "not attr_absent(property_,'parent') and not attr_absent(property_,'element') and not attr_absent(property_,'required') and "
+            "not attr_absent(property_,'source') and (is_none(property_.name) or is_str(property_.name))")
+
+for K in ["Element", "String", "Integer", "Boolean", "Null", "Array"]:
+    contract(E + "Element.construct", inst=K, requires=CONS_REQ,
+             returns="implies(not is_list(value) and not is_dict(value), result is value)",
+             may_raise=[(("ValidationError", "TypeError"), "is_list(value) or is_dict(value)")],
+             lemmas=["DICT-ITEM"],
+             props=["C01", "C04", "C08", "C10", "C13", "C14"])
